@@ -30,6 +30,9 @@ DB_ERRATA = {
 
 # explicit operands that name one register: (kind or 'v' for the rv-sized accumulator, encoding id)
 FIXED_REGS = {'st(0)': ('K_ST', 0), 'al': ('K_GP8', 0), 'ax': ('K_GP16', 0), 'eax': ('K_GP32', 0), 'rax': ('K_GP64', 0), 'axv': ('v', 0), 'cl': ('K_GP8', 1), 'dx': ('K_GP16', 2)}
+# implicit operands written <reg> in the database: they may be omitted or written out; when written out they must be exactly this register
+IMPLICIT_REGS = dict(FIXED_REGS, **{'cx': ('K_GP16', 1), 'ecx': ('K_GP32', 1), 'rcx': ('K_GP64', 1), 'edx': ('K_GP32', 2), 'rdx': ('K_GP64', 2), 'dxv': ('v', 2), 'dxy': ('y', 2),
+                                    'ebx': ('K_GP32', 3), 'rbx': ('K_GP64', 3), 'xmm0': ('K_XMM', 0)})
 
 # the destination's read access depends on the immediate (vpternlog with imm 0x00/0xFF ignores its inputs): no claim on operand 0
 ACCESS_VALUE_DEPENDENT = {'vpternlogd', 'vpternlogq'}
@@ -59,6 +62,8 @@ def parse_operand(tok, first=False):
     deco = set(re.findall(r'\{(\w+)\}', t))
     t = re.sub(r'\{\w+\}', '', t).strip()
     t = t.replace('~', '')
+    if t.startswith('<') and t.endswith('>') and t[1:-1] in IMPLICIT_REGS:
+        return dict(alts=[('fixedreg', t[1:-1])], deco=deco, acc=acc, implicit=True)
     if t.startswith('<') or t in ('dxv', 'es', 'cs', 'ss', 'ds', 'fs', 'gs'):
         raise Skip('implicit/fixed operand ' + t)
     if t in FIXED_REGS: return dict(alts=[('fixedreg', t)], deco=deco, acc=acc)
@@ -160,14 +165,15 @@ def expand(rec, arch, sig, opstr, extra):
     name = name.split('|')[0]
     ops = [parse_operand(t, i == 0) for i, t in enumerate(split_ops(m.group(3)))]
     if name in ACCESS_VALUE_DEPENDENT and ops: ops[0]['acc'] = '?'
-    if len(ops) > 4: raise Skip('more than 4 operands')
+    if len(ops) > 6: raise Skip('more than 6 operands')
     o = parse_op_string(opstr)
     if arch == 'apx': raise Skip('apx')
     # which grouping variable does this record use?
     alltoks = [a[1] for op in ops for a in op['alts']]
     groups = set()
     for t in alltoks:
-        if t in ('rv', 'mv', 'immv'): groups.add('v')
+        if t in ('rv', 'mv', 'immv', 'axv', 'dxv'): groups.add('v')
+        if t in ('dxy',): groups.add('y')
         if t in ('ry', 'my'): groups.add('y')
         if t in ('xy', 'mxy'): groups.add('xy')
         if t in ('xyz', 'mxyz', 'xxx', 'mxxx', 'xxy', 'mxxy'): groups.add('xyz')
@@ -191,9 +197,12 @@ def expand(rec, arch, sig, opstr, extra):
                     a = [x for x in op['alts'] if x[0] == k][0]
                     for v in variants: nv.append(v + [(a, op['deco'], op['acc'])])
                 variants = nv
+            has_implicit = any(op.get('implicit') for op in ops)
             for var in variants:
                 try:
                     out.append(build_form(name, o, var, gsz, vsz, modes, extra))
+                    if has_implicit:   # the same record with its implicit operands omitted (asmjit accepts one, the other or both spellings)
+                        out.append(build_form(name, o, [v for v, op in zip(var, ops) if not op.get('implicit')], gsz, vsz, modes, extra))
                 except Skip as e:
                     raise
     return out
@@ -234,10 +243,13 @@ def build_form(name, o, var, gsz, vsz, modes, extra):
         if kind == 'const1':
             f['ops'].append(('K_IMM', 'R_NONE', 0, 1, 'R')); continue
         if kind == 'fixedreg':
-            k, rid = FIXED_REGS[tok]
+            k, rid = IMPLICIT_REGS[tok]
             if k == 'v':
                 if gsz is None: raise Skip('axv without size group')
                 k = {2: 'K_GP16', 4: 'K_GP32', 8: 'K_GP64'}[gsz]
+            if k == 'y':
+                if gsz is None: raise Skip('dxy without size group')
+                k = {4: 'K_GP32', 8: 'K_GP64'}[gsz]
             if k == 'K_GP64': f['modes'] &= 2
             f['ops'].append((k, 'R_NONE', 0, rid, acc)); continue
         if kind == 'imm':
